@@ -107,12 +107,16 @@ theorem liveUdp_eq (s : St) : liveUdp s = (s.tuns.map udpW).sum := rfl
 @[simp] theorem Cells.sessInc_up2 (c : Cells) (p : Proto) : (c.sessInc p).up2 = c.up2 := by cases p <;> rfl
 @[simp] theorem Cells.sessInc_dn1 (c : Cells) (p : Proto) : (c.sessInc p).dn1 = c.dn1 := by cases p <;> rfl
 @[simp] theorem Cells.sessInc_dn2 (c : Cells) (p : Proto) : (c.sessInc p).dn2 = c.dn2 := by cases p <;> rfl
+@[simp] theorem Cells.sessInc_up3 (c : Cells) (p : Proto) : (c.sessInc p).up3 = c.up3 := by cases p <;> rfl
+@[simp] theorem Cells.sessInc_dn3 (c : Cells) (p : Proto) : (c.sessInc p).dn3 = c.dn3 := by cases p <;> rfl
 @[simp] theorem Cells.sessDec_tcp (c : Cells) (p : Proto) : (c.sessDec p).tcp = c.tcp := by cases p <;> rfl
 @[simp] theorem Cells.sessDec_udp (c : Cells) (p : Proto) : (c.sessDec p).udp = c.udp := by cases p <;> rfl
 @[simp] theorem Cells.sessDec_up1 (c : Cells) (p : Proto) : (c.sessDec p).up1 = c.up1 := by cases p <;> rfl
 @[simp] theorem Cells.sessDec_up2 (c : Cells) (p : Proto) : (c.sessDec p).up2 = c.up2 := by cases p <;> rfl
 @[simp] theorem Cells.sessDec_dn1 (c : Cells) (p : Proto) : (c.sessDec p).dn1 = c.dn1 := by cases p <;> rfl
 @[simp] theorem Cells.sessDec_dn2 (c : Cells) (p : Proto) : (c.sessDec p).dn2 = c.dn2 := by cases p <;> rfl
+@[simp] theorem Cells.sessDec_up3 (c : Cells) (p : Proto) : (c.sessDec p).up3 = c.up3 := by cases p <;> rfl
+@[simp] theorem Cells.sessDec_dn3 (c : Cells) (p : Proto) : (c.sessDec p).dn3 = c.dn3 := by cases p <;> rfl
 @[simp] theorem Cells.tcpInc_s1 (c : Cells) : (c.tcpInc).s1 = c.s1 := rfl
 @[simp] theorem Cells.tcpInc_s2 (c : Cells) : (c.tcpInc).s2 = c.s2 := rfl
 @[simp] theorem Cells.tcpInc_udp (c : Cells) : (c.tcpInc).udp = c.udp := rfl
@@ -120,6 +124,9 @@ theorem liveUdp_eq (s : St) : liveUdp s = (s.tuns.map udpW).sum := rfl
 @[simp] theorem Cells.tcpInc_up2 (c : Cells) : (c.tcpInc).up2 = c.up2 := rfl
 @[simp] theorem Cells.tcpInc_dn1 (c : Cells) : (c.tcpInc).dn1 = c.dn1 := rfl
 @[simp] theorem Cells.tcpInc_dn2 (c : Cells) : (c.tcpInc).dn2 = c.dn2 := rfl
+@[simp] theorem Cells.tcpInc_s3 (c : Cells) : (c.tcpInc).s3 = c.s3 := rfl
+@[simp] theorem Cells.tcpInc_up3 (c : Cells) : (c.tcpInc).up3 = c.up3 := rfl
+@[simp] theorem Cells.tcpInc_dn3 (c : Cells) : (c.tcpInc).dn3 = c.dn3 := rfl
 @[simp] theorem Cells.tcpDec_s1 (c : Cells) : (c.tcpDec).s1 = c.s1 := rfl
 @[simp] theorem Cells.tcpDec_s2 (c : Cells) : (c.tcpDec).s2 = c.s2 := rfl
 @[simp] theorem Cells.tcpDec_udp (c : Cells) : (c.tcpDec).udp = c.udp := rfl
@@ -127,18 +134,25 @@ theorem liveUdp_eq (s : St) : liveUdp s = (s.tuns.map udpW).sum := rfl
 @[simp] theorem Cells.tcpDec_up2 (c : Cells) : (c.tcpDec).up2 = c.up2 := rfl
 @[simp] theorem Cells.tcpDec_dn1 (c : Cells) : (c.tcpDec).dn1 = c.dn1 := rfl
 @[simp] theorem Cells.tcpDec_dn2 (c : Cells) : (c.tcpDec).dn2 = c.dn2 := rfl
+@[simp] theorem Cells.tcpDec_s3 (c : Cells) : (c.tcpDec).s3 = c.s3 := rfl
+@[simp] theorem Cells.tcpDec_up3 (c : Cells) : (c.tcpDec).up3 = c.up3 := rfl
+@[simp] theorem Cells.tcpDec_dn3 (c : Cells) : (c.tcpDec).dn3 = c.dn3 := rfl
 @[simp] theorem Cells.addUp_s1 (c : Cells) (p : Proto) (n : Nat) : (c.addUp p n).s1 = c.s1 := by cases p <;> rfl
 @[simp] theorem Cells.addUp_s2 (c : Cells) (p : Proto) (n : Nat) : (c.addUp p n).s2 = c.s2 := by cases p <;> rfl
 @[simp] theorem Cells.addUp_tcp (c : Cells) (p : Proto) (n : Nat) : (c.addUp p n).tcp = c.tcp := by cases p <;> rfl
 @[simp] theorem Cells.addUp_udp (c : Cells) (p : Proto) (n : Nat) : (c.addUp p n).udp = c.udp := by cases p <;> rfl
 @[simp] theorem Cells.addUp_dn1 (c : Cells) (p : Proto) (n : Nat) : (c.addUp p n).dn1 = c.dn1 := by cases p <;> rfl
 @[simp] theorem Cells.addUp_dn2 (c : Cells) (p : Proto) (n : Nat) : (c.addUp p n).dn2 = c.dn2 := by cases p <;> rfl
+@[simp] theorem Cells.addUp_s3 (c : Cells) (p : Proto) (n : Nat) : (c.addUp p n).s3 = c.s3 := by cases p <;> rfl
+@[simp] theorem Cells.addUp_dn3 (c : Cells) (p : Proto) (n : Nat) : (c.addUp p n).dn3 = c.dn3 := by cases p <;> rfl
 @[simp] theorem Cells.addDn_s1 (c : Cells) (p : Proto) (n : Nat) : (c.addDn p n).s1 = c.s1 := by cases p <;> rfl
 @[simp] theorem Cells.addDn_s2 (c : Cells) (p : Proto) (n : Nat) : (c.addDn p n).s2 = c.s2 := by cases p <;> rfl
 @[simp] theorem Cells.addDn_tcp (c : Cells) (p : Proto) (n : Nat) : (c.addDn p n).tcp = c.tcp := by cases p <;> rfl
 @[simp] theorem Cells.addDn_udp (c : Cells) (p : Proto) (n : Nat) : (c.addDn p n).udp = c.udp := by cases p <;> rfl
 @[simp] theorem Cells.addDn_up1 (c : Cells) (p : Proto) (n : Nat) : (c.addDn p n).up1 = c.up1 := by cases p <;> rfl
 @[simp] theorem Cells.addDn_up2 (c : Cells) (p : Proto) (n : Nat) : (c.addDn p n).up2 = c.up2 := by cases p <;> rfl
+@[simp] theorem Cells.addDn_s3 (c : Cells) (p : Proto) (n : Nat) : (c.addDn p n).s3 = c.s3 := by cases p <;> rfl
+@[simp] theorem Cells.addDn_up3 (c : Cells) (p : Proto) (n : Nat) : (c.addDn p n).up3 = c.up3 := by cases p <;> rfl
 @[simp] theorem Cells.udpDelta_s1 (c : Cells) (a b : UdpFlows.St) : (c.udpDelta a b).s1 = c.s1 := rfl
 @[simp] theorem Cells.udpDelta_s2 (c : Cells) (a b : UdpFlows.St) : (c.udpDelta a b).s2 = c.s2 := rfl
 @[simp] theorem Cells.udpDelta_tcp (c : Cells) (a b : UdpFlows.St) : (c.udpDelta a b).tcp = c.tcp := rfl
@@ -146,6 +160,9 @@ theorem liveUdp_eq (s : St) : liveUdp s = (s.tuns.map udpW).sum := rfl
 @[simp] theorem Cells.udpDelta_up2 (c : Cells) (a b : UdpFlows.St) : (c.udpDelta a b).up2 = c.up2 := rfl
 @[simp] theorem Cells.udpDelta_dn1 (c : Cells) (a b : UdpFlows.St) : (c.udpDelta a b).dn1 = c.dn1 := rfl
 @[simp] theorem Cells.udpDelta_dn2 (c : Cells) (a b : UdpFlows.St) : (c.udpDelta a b).dn2 = c.dn2 := rfl
+@[simp] theorem Cells.udpDelta_s3 (c : Cells) (a b : UdpFlows.St) : (c.udpDelta a b).s3 = c.s3 := rfl
+@[simp] theorem Cells.udpDelta_up3 (c : Cells) (a b : UdpFlows.St) : (c.udpDelta a b).up3 = c.up3 := rfl
+@[simp] theorem Cells.udpDelta_dn3 (c : Cells) (a b : UdpFlows.St) : (c.udpDelta a b).dn3 = c.dn3 := rfl
 @[simp] theorem Cells.tcpInc_tcp (c : Cells) : c.tcpInc.tcp = c.tcp + 1 := rfl
 @[simp] theorem Cells.tcpDec_tcp (c : Cells) : c.tcpDec.tcp = c.tcp - 1 := rfl
 @[simp] theorem Cells.udpDelta_udp (c : Cells) (a b : UdpFlows.St) :
@@ -154,9 +171,13 @@ theorem Cells.addUp_up1_le (c : Cells) (p : Proto) (n : Nat) : c.up1 ≤ (c.addU
   cases p <;> simp [Cells.addUp]
 theorem Cells.addUp_up2_le (c : Cells) (p : Proto) (n : Nat) : c.up2 ≤ (c.addUp p n).up2 := by
   cases p <;> simp [Cells.addUp]
+theorem Cells.addUp_up3_le (c : Cells) (p : Proto) (n : Nat) : c.up3 ≤ (c.addUp p n).up3 := by
+  cases p <;> simp [Cells.addUp]
 theorem Cells.addDn_dn1_le (c : Cells) (p : Proto) (n : Nat) : c.dn1 ≤ (c.addDn p n).dn1 := by
   cases p <;> simp [Cells.addDn]
 theorem Cells.addDn_dn2_le (c : Cells) (p : Proto) (n : Nat) : c.dn2 ≤ (c.addDn p n).dn2 := by
+  cases p <;> simp [Cells.addDn]
+theorem Cells.addDn_dn3_le (c : Cells) (p : Proto) (n : Nat) : c.dn3 ≤ (c.addDn p n).dn3 := by
   cases p <;> simp [Cells.addDn]
 
 /-! ### basic facts about the state accessors -/
@@ -285,12 +306,14 @@ structure Fr (s s' : St) : Prop where
   ctcp : s'.cells.tcp ≤ s.cells.tcp
   up1 : s.cells.up1 ≤ s'.cells.up1
   up2 : s.cells.up2 ≤ s'.cells.up2
+  up3 : s.cells.up3 ≤ s'.cells.up3
   dn1 : s.cells.dn1 ≤ s'.cells.dn1
   dn2 : s.cells.dn2 ≤ s'.cells.dn2
+  dn3 : s.cells.dn3 ≤ s'.cells.dn3
 
 theorem Fr.refl (s : St) : Fr s s :=
   ⟨rfl, rfl, fun _ => rfl, fun _ => Nat.le_refl _, fun _ _ h => h, fun _ u h => ⟨u, h⟩, fun _ h => h,
-   Int.le_refl _, Nat.le_refl _, Nat.le_refl _, Nat.le_refl _, Nat.le_refl _⟩
+   Int.le_refl _, Nat.le_refl _, Nat.le_refl _, Nat.le_refl _, Nat.le_refl _, Nat.le_refl _, Nat.le_refl _⟩
 
 theorem Fr.trans {a b d : St} (h1 : Fr a b) (h2 : Fr b d) : Fr a d where
   now := h2.now.trans h1.now
@@ -303,15 +326,18 @@ theorem Fr.trans {a b d : St} (h1 : Fr a b) (h2 : Fr b d) : Fr a d where
   ctcp := Int.le_trans h2.ctcp h1.ctcp
   up1 := Nat.le_trans h1.up1 h2.up1
   up2 := Nat.le_trans h1.up2 h2.up2
+  up3 := Nat.le_trans h1.up3 h2.up3
   dn1 := Nat.le_trans h1.dn1 h2.dn1
   dn2 := Nat.le_trans h1.dn2 h2.dn2
+  dn3 := Nat.le_trans h1.dn3 h2.dn3
 
 theorem Fr.upd (s : St) (t : Nat) (st : TunState) (cells : Cells)
     (hw : tcpW { (s.tuns.getD t default) with st := st } ≤ tcpW (s.tuns.getD t default))
     (hc : ∀ n, st = .connecting n → (s.tuns.getD t default).st = .connecting n)
     (hm : ∀ u, st = .mux u → ∃ u0, (s.tuns.getD t default).st = .mux u0)
     (h0 : cells.tcp ≤ s.cells.tcp) (h1 : s.cells.up1 ≤ cells.up1) (h2 : s.cells.up2 ≤ cells.up2)
-    (h3 : s.cells.dn1 ≤ cells.dn1) (h4 : s.cells.dn2 ≤ cells.dn2) :
+    (h3 : s.cells.dn1 ≤ cells.dn1) (h4 : s.cells.dn2 ≤ cells.dn2)
+    (h5 : s.cells.up3 ≤ cells.up3) (h6 : s.cells.dn3 ≤ cells.dn3) :
     Fr s (updTun s t st cells) where
   now := rfl
   len := by simp
@@ -331,14 +357,17 @@ theorem Fr.upd (s : St) (t : Nat) (st : TunState) (cells : Cells)
   ctcp := h0
   up1 := h1
   up2 := h2
+  up3 := h5
   dn1 := h3
   dn2 := h4
+  dn3 := h6
 
 /-! ### the cells equal the object counts -/
 
 structure Eq4 (s : St) : Prop where
   s1 : s.cells.s1 = ((s.sess.map (sessW .h1)).sum : Nat)
   s2 : s.cells.s2 = ((s.sess.map (sessW .h2)).sum : Nat)
+  s3 : s.cells.s3 = ((s.sess.map (sessW .h3)).sum : Nat)
   tcp : s.cells.tcp = ((s.tuns.map tcpW).sum : Nat)
   udp : s.cells.udp = ((s.tuns.map udpW).sum : Nat)
 
@@ -347,14 +376,16 @@ theorem Eq4.upd {s : St} (h : Eq4 s) {t : Nat} (ht : t < s.tuns.length) (st : Tu
     (h3 : cells.tcp + (tcpW (s.tuns.getD t default) : Nat)
             = s.cells.tcp + (tcpW { (s.tuns.getD t default) with st := st } : Nat))
     (h4 : cells.udp + (udpW (s.tuns.getD t default) : Nat)
-            = s.cells.udp + (udpW { (s.tuns.getD t default) with st := st } : Nat)) :
+            = s.cells.udp + (udpW { (s.tuns.getD t default) with st := st } : Nat))
+    (h5 : cells.s3 = s.cells.s3) :
     Eq4 (updTun s t st cells) := by
   have e3 := sum_map_set tcpW s.tuns t { (s.tuns.getD t default) with st := st } default ht
   have e4 := sum_map_set udpW s.tuns t { (s.tuns.getD t default) with st := st } default ht
-  obtain ⟨a1, a2, a3, a4⟩ := h
-  refine ⟨?_, ?_, ?_, ?_⟩
+  obtain ⟨a1, a2, a5, a3, a4⟩ := h
+  refine ⟨?_, ?_, ?_, ?_, ?_⟩
   · simpa [h1] using a1
   · simpa [h2] using a2
+  · simpa [h5] using a5
   · show cells.tcp = (((s.tuns.set t _).map tcpW).sum : Nat); omega
   · show cells.udp = (((s.tuns.set t _).map udpW).sum : Nat); omega
 
@@ -398,13 +429,14 @@ theorem Pres.upd {s : St} {t : Nat} (ht : t < s.tuns.length) (st : TunState) (ce
     (hm : ∀ u, st = .mux u → ∃ u0, (s.tuns.getD t default).st = .mux u0)
     (h0 : cells.tcp ≤ s.cells.tcp) (h1 : s.cells.up1 ≤ cells.up1) (h2 : s.cells.up2 ≤ cells.up2)
     (h3 : s.cells.dn1 ≤ cells.dn1) (h4 : s.cells.dn2 ≤ cells.dn2)
-    (e1 : cells.s1 = s.cells.s1) (e2 : cells.s2 = s.cells.s2)
+    (h5 : s.cells.up3 ≤ cells.up3) (h6 : s.cells.dn3 ≤ cells.dn3)
+    (e1 : cells.s1 = s.cells.s1) (e2 : cells.s2 = s.cells.s2) (e5 : cells.s3 = s.cells.s3)
     (e3 : cells.tcp + (tcpW (s.tuns.getD t default) : Nat)
             = s.cells.tcp + (tcpW { (s.tuns.getD t default) with st := st } : Nat))
     (e4 : cells.udp + (udpW (s.tuns.getD t default) : Nat)
             = s.cells.udp + (udpW { (s.tuns.getD t default) with st := st } : Nat)) :
     Pres s (updTun s t st cells) :=
-  ⟨Fr.upd s t st cells hw hc hm h0 h1 h2 h3 h4, fun h => h.upd ht st cells e1 e2 e3 e4,
+  ⟨Fr.upd s t st cells hw hc hm h0 h1 h2 h3 h4 h5 h6, fun h => h.upd ht st cells e1 e2 e3 e4 e5,
    fun _ _ h => h.upd t st cells hc hm⟩
 
 theorem gauge_no_socks (u : UdpFlows.St) : ({ u with socks := [] } : UdpFlows.St).gauge = 0 := rfl
@@ -443,8 +475,11 @@ theorem Pres.of_stepMux (c : Cfg) (s : St) {t : Nat} {u : UdpFlows.St}
   case h2 => simpa using Cells.addUp_up2_le (s.cells.udpDelta u (UdpFlows.step c.udp u op).1) _ _
   case h3 => simpa using Cells.addDn_dn1_le ((s.cells.udpDelta u (UdpFlows.step c.udp u op).1).addUp _ _) _ _
   case h4 => simpa using Cells.addDn_dn2_le ((s.cells.udpDelta u (UdpFlows.step c.udp u op).1).addUp _ _) _ _
+  case h5 => simpa using Cells.addUp_up3_le (s.cells.udpDelta u (UdpFlows.step c.udp u op).1) _ _
+  case h6 => simpa using Cells.addDn_dn3_le ((s.cells.udpDelta u (UdpFlows.step c.udp u op).1).addUp _ _) _ _
   case e1 => simp
   case e2 => simp
+  case e5 => simp
   case e3 => simp [tcpW_of_mux h]
   case e4 => simp [udpW_of_mux h]
 
@@ -455,7 +490,7 @@ def goneBody (i : Nat) (s : St) (t : Nat) : St :=
   if tn.sess = i then
     match tn.st with
     | .open _ _ true => closeTun s t
-    | .open ce _ false => setTun s t (.open ce true false)
+    | .open ce _ false => if protoOf s i = .h3 && !ce then closeTun s t else setTun s t (.open ce true false)
     | .mux _ | .imux => closeTun s t
     | _ => s
   else s
@@ -469,7 +504,10 @@ theorem Pres.of_goneBody (i : Nat) (s : St) (t : Nat) : Pres s (goneBody i s t) 
   split
   · split
     · next h => exact Pres.of_closeTun s (tun_lt_of_open h)
-    · next ce o h => exact Pres.of_setOpen s h _ _ _
+    · next ce o h =>
+      split
+      · exact Pres.of_closeTun s (tun_lt_of_open h)
+      · exact Pres.of_setOpen s h _ _ _
     · next u h => exact Pres.of_closeTun s (tun_lt_of_mux h)
     · next h => exact Pres.of_closeTun s (tun_lt_of_imux h)
     · exact Pres.refl s
@@ -499,8 +537,11 @@ theorem goneBody_noMux (i : Nat) (s : St) (t : Nat) : NoMux i t (goneBody i s t)
     rw [closeTun_of_open h, updTun_getD, if_pos ⟨rfl, tun_lt_of_open h⟩] at hu
     cases hu
   · next ce o h =>
-    rw [setTun_getD_self _ _ _ (tun_lt_of_open h)] at hu
-    cases hu
+    split at hu
+    · rw [closeTun_of_open h, updTun_getD, if_pos ⟨rfl, tun_lt_of_open h⟩] at hu
+      cases hu
+    · rw [setTun_getD_self _ _ _ (tun_lt_of_open h)] at hu
+      cases hu
   · next u0 h =>
     rw [closeTun_of_mux h, updTun_getD, if_pos ⟨rfl, tun_lt_of_mux h⟩] at hu
     cases hu
@@ -540,6 +581,10 @@ theorem clientGone_noMux (s : St) (i j : Nat) : NoMux i j (clientGone s i) := by
   unfold endSession; split <;> simp
 @[simp] theorem endSession_dn2 (s : St) (i : Nat) : (endSession s i).cells.dn2 = s.cells.dn2 := by
   unfold endSession; split <;> simp
+@[simp] theorem endSession_up3 (s : St) (i : Nat) : (endSession s i).cells.up3 = s.cells.up3 := by
+  unfold endSession; split <;> simp
+@[simp] theorem endSession_dn3 (s : St) (i : Nat) : (endSession s i).cells.dn3 = s.cells.dn3 := by
+  unfold endSession; split <;> simp
 
 theorem endSession_of_dead {s : St} {i : Nat} (h : aliveS s i = false) : endSession s i = s := by
   simp [endSession, h]
@@ -569,8 +614,10 @@ theorem Fr.of_endSession (s : St) (i : Nat) : Fr s (endSession s i) where
   ctcp := by simp
   up1 := by simp
   up2 := by simp
+  up3 := by simp
   dn1 := by simp
   dn2 := by simp
+  dn3 := by simp
 
 theorem Eq4.of_endSession {s : St} (h : Eq4 s) (i : Nat) : Eq4 (endSession s i) := by
   unfold endSession
@@ -579,11 +626,12 @@ theorem Eq4.of_endSession {s : St} (h : Eq4 s) (i : Nat) : Eq4 (endSession s i) 
     have hl := aliveS_lt ha
     have e1 := sum_map_set (sessW .h1) s.sess i { (s.sess.getD i default) with alive := false } default hl
     have e2 := sum_map_set (sessW .h2) s.sess i { (s.sess.getD i default) with alive := false } default hl
+    have e3 := sum_map_set (sessW .h3) s.sess i { (s.sess.getD i default) with alive := false } default hl
     have ha' : (s.sess.getD i default).alive = true := ha
-    obtain ⟨a1, a2, a3, a4⟩ := h
+    obtain ⟨a1, a2, a5, a3, a4⟩ := h
     cases hp : (s.sess.getD i default).proto <;>
-      simp [sessW, ha', hp] at e1 e2 <;>
-      refine ⟨?_, ?_, by simpa using a3, by simpa using a4⟩ <;>
+      simp [sessW, ha', hp] at e1 e2 e3 <;>
+      refine ⟨?_, ?_, ?_, by simpa using a3, by simpa using a4⟩ <;>
       simp [protoOf, hp, Cells.sessDec, sessW] <;> omega
   · exact h
 
@@ -671,26 +719,31 @@ structure StepOk (s s' : St) : Prop where
   inv2 : Inv2 noEx 0 s → Inv2 noEx 0 s'
   up1 : s.cells.up1 ≤ s'.cells.up1
   up2 : s.cells.up2 ≤ s'.cells.up2
+  up3 : s.cells.up3 ≤ s'.cells.up3
   dn1 : s.cells.dn1 ≤ s'.cells.dn1
   dn2 : s.cells.dn2 ≤ s'.cells.dn2
+  dn3 : s.cells.dn3 ≤ s'.cells.dn3
 
 theorem StepOk.refl (s : St) : StepOk s s :=
-  ⟨id, id, Nat.le_refl _, Nat.le_refl _, Nat.le_refl _, Nat.le_refl _⟩
+  ⟨id, id, Nat.le_refl _, Nat.le_refl _, Nat.le_refl _, Nat.le_refl _, Nat.le_refl _, Nat.le_refl _⟩
 
 theorem StepOk.trans {a b d : St} (h1 : StepOk a b) (h2 : StepOk b d) : StepOk a d :=
   ⟨fun h => h2.eq4 (h1.eq4 h), fun h => h2.inv2 (h1.inv2 h), Nat.le_trans h1.up1 h2.up1,
-   Nat.le_trans h1.up2 h2.up2, Nat.le_trans h1.dn1 h2.dn1, Nat.le_trans h1.dn2 h2.dn2⟩
+   Nat.le_trans h1.up2 h2.up2, Nat.le_trans h1.up3 h2.up3, Nat.le_trans h1.dn1 h2.dn1,
+   Nat.le_trans h1.dn2 h2.dn2, Nat.le_trans h1.dn3 h2.dn3⟩
 
 theorem Pres.ok {s s' : St} (h : Pres s s') : StepOk s s' :=
-  ⟨h.eq4, h.inv2 _ _, h.fr.up1, h.fr.up2, h.fr.dn1, h.fr.dn2⟩
+  ⟨h.eq4, h.inv2 _ _, h.fr.up1, h.fr.up2, h.fr.up3, h.fr.dn1, h.fr.dn2, h.fr.dn3⟩
 
 /-- only the byte counters change -/
 theorem StepOk.cells (s : St) (cells : Cells) (e1 : cells.s1 = s.cells.s1) (e2 : cells.s2 = s.cells.s2)
     (e3 : cells.tcp = s.cells.tcp) (e4 : cells.udp = s.cells.udp)
     (h1 : s.cells.up1 ≤ cells.up1) (h2 : s.cells.up2 ≤ cells.up2)
-    (h3 : s.cells.dn1 ≤ cells.dn1) (h4 : s.cells.dn2 ≤ cells.dn2) :
+    (h3 : s.cells.dn1 ≤ cells.dn1) (h4 : s.cells.dn2 ≤ cells.dn2)
+    (e5 : cells.s3 = s.cells.s3) (h5 : s.cells.up3 ≤ cells.up3) (h6 : s.cells.dn3 ≤ cells.dn3) :
     StepOk s { s with cells := cells } :=
-  ⟨fun h => ⟨e1.trans h.s1, e2.trans h.s2, e3.trans h.tcp, e4.trans h.udp⟩, fun h => h, h1, h2, h3, h4⟩
+  ⟨fun h => ⟨e1.trans h.s1, e2.trans h.s2, e5.trans h.s3, e3.trans h.tcp, e4.trans h.udp⟩, fun h => h,
+   h1, h2, h5, h3, h4, h6⟩
 
 theorem getD_append_left {α : Type} (l : List α) (a d : α) {j : Nat} (h : j < l.length) :
     (l ++ [a]).getD j d = l.getD j d := by
@@ -705,11 +758,12 @@ theorem StepOk.append (s : St) (tn : Tun) (cells : Cells)
     (e3 : cells.tcp = s.cells.tcp + (tcpW tn : Nat)) (e4 : cells.udp = s.cells.udp + (udpW tn : Nat))
     (h1 : s.cells.up1 ≤ cells.up1) (h2 : s.cells.up2 ≤ cells.up2)
     (h3 : s.cells.dn1 ≤ cells.dn1) (h4 : s.cells.dn2 ≤ cells.dn2)
-    (hok : TunOk noEx 0 s tn) :
+    (hok : TunOk noEx 0 s tn)
+    (e5 : cells.s3 = s.cells.s3) (h5 : s.cells.up3 ≤ cells.up3) (h6 : s.cells.dn3 ≤ cells.dn3) :
     StepOk s { s with tuns := s.tuns ++ [tn], cells := cells } where
   eq4 h := by
-    obtain ⟨a1, a2, a3, a4⟩ := h
-    refine ⟨e1.trans a1, e2.trans a2, ?_, ?_⟩
+    obtain ⟨a1, a2, a5, a3, a4⟩ := h
+    refine ⟨e1.trans a1, e2.trans a2, e5.trans a5, ?_, ?_⟩
     · simp only [List.map_append, List.sum_append, List.map_cons, List.map_nil, List.sum_cons, List.sum_nil]
       omega
     · simp only [List.map_append, List.sum_append, List.map_cons, List.map_nil, List.sum_cons, List.sum_nil]
@@ -728,8 +782,10 @@ theorem StepOk.append (s : St) (tn : Tun) (cells : Cells)
       exact hok
   up1 := h1
   up2 := h2
+  up3 := h5
   dn1 := h3
   dn2 := h4
+  dn3 := h6
 
 theorem aliveS_sessOpen (s : St) (x : Sess) (cells : Cells) {i : Nat} (h : aliveS s i = true) :
     aliveS { s with sess := s.sess ++ [x], cells := cells } i = true := by
@@ -741,8 +797,8 @@ theorem aliveS_sessOpen (s : St) (x : Sess) (cells : Cells) {i : Nat} (h : alive
 theorem StepOk.sessOpen (s : St) (p : Proto) :
     StepOk s { s with sess := s.sess ++ [{ proto := p, alive := true }], cells := s.cells.sessInc p } where
   eq4 h := by
-    obtain ⟨a1, a2, a3, a4⟩ := h
-    refine ⟨?_, ?_, by simpa using a3, by simpa using a4⟩ <;>
+    obtain ⟨a1, a2, a5, a3, a4⟩ := h
+    refine ⟨?_, ?_, ?_, by simpa using a3, by simpa using a4⟩ <;>
       cases p <;> simp [Cells.sessInc, sessW] <;> omega
   inv2 h := by
     intro j hj
@@ -750,19 +806,23 @@ theorem StepOk.sessOpen (s : St) (p : Proto) :
     exact ⟨fun u hu hx => aliveS_sessOpen s _ _ (m u hu hx), c⟩
   up1 := by simp
   up2 := by simp
+  up3 := by simp
   dn1 := by simp
   dn2 := by simp
+  dn3 := by simp
 
 theorem StepOk.now (s : St) (ms : Nat) : StepOk s { s with now := s.now + ms } where
-  eq4 h := ⟨h.s1, h.s2, h.tcp, h.udp⟩
+  eq4 h := ⟨h.s1, h.s2, h.s3, h.tcp, h.udp⟩
   inv2 h := by
     intro j hj
     obtain ⟨m, c⟩ := h j hj
     exact ⟨m, fun n hn => Nat.le_trans (c n hn) (Nat.le_add_right _ _)⟩
   up1 := Nat.le_refl _
   up2 := Nat.le_refl _
+  up3 := Nat.le_refl _
   dn1 := Nat.le_refl _
   dn2 := Nat.le_refl _
+  dn3 := Nat.le_refl _
 
 theorem TunOk.of_not (s : St) (tn : Tun) (h1 : ∀ u, tn.st ≠ .mux u) (h2 : ∀ n, tn.st ≠ .connecting n) :
     TunOk noEx 0 s tn :=
@@ -778,7 +838,7 @@ theorem step_ok (c : Cfg) (s : St) (op : Op) : StepOk s (step c s op) := by
     simp only [step]
     split
     · exact StepOk.append s _ s.cells rfl rfl (by simp) (by simp) (Nat.le_refl _) (Nat.le_refl _)
-        (Nat.le_refl _) (Nat.le_refl _) (TunOk.of_not _ _ (fun u hu => nomatch hu) (fun n hn => nomatch hn))
+        (Nat.le_refl _) (Nat.le_refl _) (TunOk.of_not _ _ (fun u hu => nomatch hu) (fun n hn => nomatch hn)) rfl (Nat.le_refl _) (Nat.le_refl _)
     · next hcond =>
       have ha : aliveS s i = true := by
         cases h : aliveS s i
@@ -787,35 +847,35 @@ theorem step_ok (c : Cfg) (s : St) (op : Op) : StepOk s (step c s op) := by
       cases k with
       | origin =>
         exact StepOk.append s _ _ rfl rfl (by simp) (by simp) (Nat.le_refl _) (Nat.le_refl _)
-          (Nat.le_refl _) (Nat.le_refl _) (TunOk.of_not _ _ (fun u hu => nomatch hu) (fun n hn => nomatch hn))
+          (Nat.le_refl _) (Nat.le_refl _) (TunOk.of_not _ _ (fun u hu => nomatch hu) (fun n hn => nomatch hn)) rfl (Nat.le_refl _) (Nat.le_refl _)
       | dead =>
         exact (StepOk.append s { sess := i, st := .closed } s.cells rfl rfl (by simp) (by simp)
           (Nat.le_refl _) (Nat.le_refl _)
-          (Nat.le_refl _) (Nat.le_refl _) (TunOk.of_not _ _ (fun u hu => nomatch hu) (fun n hn => nomatch hn))).trans
+          (Nat.le_refl _) (Nat.le_refl _) (TunOk.of_not _ _ (fun u hu => nomatch hu) (fun n hn => nomatch hn)) rfl (Nat.le_refl _) (Nat.le_refl _)).trans
           (Pres.of_endIfH1 _ i).ok
       | hang =>
         exact StepOk.append s _ _ rfl rfl (by simp) (by simp) (Nat.le_refl _) (Nat.le_refl _)
           (Nat.le_refl _) (Nat.le_refl _)
-          (And.intro (fun u hu => nomatch hu) (fun n hn => (by cases hn; exact Nat.le_refl _)))
+          (And.intro (fun u hu => nomatch hu) (fun n hn => (by cases hn; exact Nat.le_refl _))) rfl (Nat.le_refl _) (Nat.le_refl _)
       | udp =>
         exact StepOk.append s _ s.cells rfl rfl (by simp) (by simp [muxInit_gauge]) (Nat.le_refl _)
           (Nat.le_refl _) (Nat.le_refl _) (Nat.le_refl _)
-          (And.intro (fun u _ _ => ha) (fun n hn => nomatch hn))
+          (And.intro (fun u _ _ => ha) (fun n hn => nomatch hn)) rfl (Nat.le_refl _) (Nat.le_refl _)
       | icmp =>
         exact StepOk.append s _ s.cells rfl rfl (by simp) (by simp) (Nat.le_refl _)
           (Nat.le_refl _) (Nat.le_refl _) (Nat.le_refl _)
-          (TunOk.of_not _ _ (fun u hu => nomatch hu) (fun n hn => nomatch hn))
+          (TunOk.of_not _ _ (fun u hu => nomatch hu) (fun n hn => nomatch hn)) rfl (Nat.le_refl _) (Nat.le_refl _)
   | up t n =>
     simp only [step]
     split
     · exact StepOk.cells s _ (by simp) (by simp) (by simp) (by simp) (Cells.addUp_up1_le _ _ _)
-        (Cells.addUp_up2_le _ _ _) (by simp) (by simp)
+        (Cells.addUp_up2_le _ _ _) (by simp) (by simp) (by simp) (Cells.addUp_up3_le _ _ _) (by simp)
     · exact StepOk.refl s
   | down t n =>
     simp only [step]
     split
     · exact StepOk.cells s _ (by simp) (by simp) (by simp) (by simp) (by simp) (by simp)
-        (Cells.addDn_dn1_le _ _ _) (Cells.addDn_dn2_le _ _ _)
+        (Cells.addDn_dn1_le _ _ _) (Cells.addDn_dn2_le _ _ _) (by simp) (by simp) (Cells.addDn_dn3_le _ _ _)
     · next h => exact (Pres.of_closeTun s (tun_lt_of_open h)).ok
     · exact StepOk.refl s
     · exact StepOk.refl s
@@ -865,6 +925,9 @@ theorem step_ok (c : Cfg) (s : St) (op : Op) : StepOk s (step c s op) := by
           (by simpa using Cells.addUp_up2_le s.cells _ _)
           (by simpa using Cells.addDn_dn1_le (s.cells.addUp _ _) _ _)
           (by simpa using Cells.addDn_dn2_le (s.cells.addUp _ _) _ _)
+          (by simp)
+          (by simpa using Cells.addUp_up3_le s.cells _ _)
+          (by simpa using Cells.addDn_dn3_le (s.cells.addUp _ _) _ _)
       · exact StepOk.refl s
     · exact StepOk.refl s
   | adv ms =>
@@ -887,7 +950,7 @@ theorem run_inv (c : Cfg) (P : St → Prop) (hstep : ∀ s op, P s → P (step c
   | nil => exact h
   | cons op ops ih => exact ih _ (hstep s op h)
 
-theorem eq4_init : Eq4 {} := ⟨rfl, rfl, rfl, rfl⟩
+theorem eq4_init : Eq4 {} := ⟨rfl, rfl, rfl, rfl, rfl⟩
 theorem inv2_init : Inv2 noEx 0 {} := fun j hj => absurd hj (Nat.not_lt_zero j)
 
 theorem run_eq4 (c : Cfg) (ops : List Op) : Eq4 (run c {} ops) :=
@@ -898,9 +961,10 @@ theorem run_inv2 (c : Cfg) (ops : List Op) : Inv2 noEx 0 (run c {} ops) :=
 
 theorem Eq4.live {s : St} (h : Eq4 s) :
     s.cells.s1 = (liveSessions s .h1 : Int) ∧ s.cells.s2 = (liveSessions s .h2 : Int) ∧
+    s.cells.s3 = (liveSessions s .h3 : Int) ∧
     s.cells.tcp = (liveTcp s : Int) ∧ s.cells.udp = (liveUdp s : Int) := by
-  rw [liveSessions_eq, liveSessions_eq, liveTcp_eq, liveUdp_eq]
-  exact ⟨h.s1, h.s2, h.tcp, h.udp⟩
+  rw [liveSessions_eq, liveSessions_eq, liveSessions_eq, liveTcp_eq, liveUdp_eq]
+  exact ⟨h.s1, h.s2, h.s3, h.tcp, h.udp⟩
 
 /-! ### all clients gone -/
 
@@ -953,10 +1017,11 @@ theorem AllDead.udp_zero {s : St} (h : AllDead s) (hi : Inv2 noEx 0 s) : (s.tuns
   | closed => exact udpW_of_closed hst
 
 theorem gone_sessions_udp_zero {s : St} (he : Eq4 s) (hi : Inv2 noEx 0 s) (h : AllDead s) :
-    s.cells.s1 = 0 ∧ s.cells.s2 = 0 ∧ s.cells.udp = 0 := by
-  refine ⟨?_, ?_, ?_⟩
+    s.cells.s1 = 0 ∧ s.cells.s2 = 0 ∧ s.cells.s3 = 0 ∧ s.cells.udp = 0 := by
+  refine ⟨?_, ?_, ?_, ?_⟩
   · rw [he.s1, h.sess_zero]; rfl
   · rw [he.s2, h.sess_zero]; rfl
+  · rw [he.s3, h.sess_zero]; rfl
   · rw [he.udp, h.udp_zero hi]; rfl
 
 theorem closeTun_getD_ne (s : St) (t : Nat) {j : Nat} (h : j ≠ t) :
@@ -1078,17 +1143,17 @@ theorem step_dead_tcp (c : Cfg) (s : St) (i : Nat) :
         rw [getD_append_last]
     · rfl
 
-/-! ### an HTTP/2 tunnel through the two half-closes -/
+/-! ### a multiplexed (HTTP/2 or HTTP/3) tunnel through the two half-closes -/
 
 theorem closeTun_sess (s : St) (t : Nat) : (closeTun s t).sess = s.sess := by
   unfold closeTun; split <;> rfl
 
-theorem endIfH1_of_h2 (s : St) (i : Nat) (h : protoOf s i = .h2) : endIfH1 s i = s := by
-  rw [endIfH1_eq, if_neg (by rw [h]; exact fun hh => nomatch hh)]
+theorem endIfH1_of_h2 (s : St) (i : Nat) (h : protoOf s i ≠ .h1) : endIfH1 s i = s := by
+  rw [endIfH1_eq, if_neg h]
 
 theorem step_originClose_h2 (c : Cfg) (s : St) (t : Nat)
     (h : (s.tuns.getD t default).st = .open false false false)
-    (hp : protoOf s (s.tuns.getD t default).sess = .h2) :
+    (hp : protoOf s (s.tuns.getD t default).sess ≠ .h1) :
     step c s (.tunClose t 's') = setTun s t (.open false false true) := by
   simp only [step, if_true]
   rw [h]
@@ -1096,7 +1161,7 @@ theorem step_originClose_h2 (c : Cfg) (s : St) (t : Nat)
 
 theorem step_originClose_h2_ended (c : Cfg) (s : St) (t : Nat) (o : Bool)
     (h : (s.tuns.getD t default).st = .open true o false)
-    (hp : protoOf s (s.tuns.getD t default).sess = .h2) :
+    (hp : protoOf s (s.tuns.getD t default).sess ≠ .h1) :
     step c s (.tunClose t 's') = closeTun s t := by
   simp only [step, if_true]
   rw [h]
@@ -1105,25 +1170,25 @@ theorem step_originClose_h2_ended (c : Cfg) (s : St) (t : Nat) (o : Bool)
 
 theorem step_clientEnd_h2 (c : Cfg) (s : St) (t : Nat) (ce o : Bool)
     (h : (s.tuns.getD t default).st = .open ce o false)
-    (hp : protoOf s (s.tuns.getD t default).sess = .h2)
+    (hp : protoOf s (s.tuns.getD t default).sess ≠ .h1)
     (ha : aliveS s (s.tuns.getD t default).sess = true) :
     step c s (.tunClose t 'g') = setTun s t (.open true o false) := by
   simp only [step]
-  rw [if_neg (by decide), ha, hp, h]
+  rw [if_neg (by decide), ha, if_neg hp, h]
   simp
 
 theorem step_clientEnd_h2_ended (c : Cfg) (s : St) (t : Nat) (ce o : Bool)
     (h : (s.tuns.getD t default).st = .open ce o true)
-    (hp : protoOf s (s.tuns.getD t default).sess = .h2)
+    (hp : protoOf s (s.tuns.getD t default).sess ≠ .h1)
     (ha : aliveS s (s.tuns.getD t default).sess = true) :
     step c s (.tunClose t 'g') = closeTun s t := by
   simp only [step]
-  rw [if_neg (by decide), ha, hp, h]
+  rw [if_neg (by decide), ha, if_neg hp, h]
   simp
 
 theorem half_close_both (c : Cfg) (s : St) (t : Nat)
     (h : (s.tuns.getD t default).st = .open false false false)
-    (hp : protoOf s (s.tuns.getD t default).sess = .h2)
+    (hp : protoOf s (s.tuns.getD t default).sess ≠ .h1)
     (ha : aliveS s (s.tuns.getD t default).sess = true)
     (ht : t < s.tuns.length) :
     (step c s (.tunClose t 's')).cells.tcp = s.cells.tcp ∧
@@ -1162,7 +1227,9 @@ theorem goneBody_conn (i : Nat) (s : St) (t : Nat) {j n : Nat}
     split
     · split
       · rw [closeTun_getD_ne _ _ hjt]; exact h
-      · rw [setTun_getD_ne _ _ _ hjt]; exact h
+      · split
+        · rw [closeTun_getD_ne _ _ hjt]; exact h
+        · rw [setTun_getD_ne _ _ _ hjt]; exact h
       · rw [closeTun_getD_ne _ _ hjt]; exact h
       · rw [closeTun_getD_ne _ _ hjt]; exact h
       · exact h
@@ -1263,9 +1330,10 @@ theorem adv_allDead (c : Cfg) (ms : Nat) (s : St) (h : AllDead s) : AllDead (ste
 theorem gone_everything_zero (c : Cfg) (ms : Nat) (s : St) (he : Eq4 s) (h2 : Inv2 noEx 0 s)
     (h : AllDead s) (hi : 2 * c.tcpIdle ≤ ms) (hest : c.establish ≤ ms) :
     (step c s (.adv ms)).cells.s1 = 0 ∧ (step c s (.adv ms)).cells.s2 = 0 ∧
+    (step c s (.adv ms)).cells.s3 = 0 ∧
     (step c s (.adv ms)).cells.tcp = 0 ∧ (step c s (.adv ms)).cells.udp = 0 := by
   have ok := step_ok c s (.adv ms)
-  obtain ⟨a, b, d⟩ := gone_sessions_udp_zero (ok.eq4 he) (ok.inv2 h2) (adv_allDead c ms s h)
-  exact ⟨a, b, adv_tcp_zero c ms s he h2 hi hest, d⟩
+  obtain ⟨a, b, b3, d⟩ := gone_sessions_udp_zero (ok.eq4 he) (ok.inv2 h2) (adv_allDead c ms s h)
+  exact ⟨a, b, b3, adv_tcp_zero c ms s he h2 hi hest, d⟩
 
 end TT.Metrics
